@@ -820,9 +820,7 @@ impl<'a> UserModel<'a> {
                 } => self.model.set_frozen_columns(*sheet, *new_value)?,
                 Diff::DeleteSheet { sheet, old_data: _ } => {
                     self.model.delete_sheet(*sheet)?;
-                    if *sheet > 0 {
-                        self.set_selected_sheet(*sheet - 1)?;
-                    }
+                    self.set_selected_sheet(sheet.saturating_sub(1))?;
                 }
                 Diff::NewSheet { index, name } => {
                     self.model.insert_sheet(name, *index, None)?;
